@@ -1,5 +1,6 @@
 /-
-`Liftable for Concrete`: the lifted abstract policy has the truth table of the concrete one.
+`Liftable for Concrete`: the lifted abstract policy has the truth table of the concrete one;
+`lift` refuses exactly when `check_timelocks` does.
 -/
 import MsVerif.Lemmas.PolicyNorm
 import MsVerif.Lemmas.PolicyTimelocks
@@ -8,7 +9,8 @@ set_option linter.unusedSimpArgs false
 namespace MsVerif.Pol
 open Sem Conc
 
-theorem andOrNonEmpty_go_iff (l : List CPolicy) : andOrNonEmpty.go l = true ↔ ∀ c ∈ l, andOrNonEmpty c = true := by
+theorem andOrNonEmpty_go_iff (l : List CPolicy) :
+    andOrNonEmpty.go l = true ↔ ∀ c ∈ l, andOrNonEmpty c = true := by
   induction l with
   | nil => simp [andOrNonEmpty.go]
   | cons p ps ih => simp [andOrNonEmpty.go, ih]
@@ -25,11 +27,17 @@ theorem collectLift_ok {rs : List LiftRes} {k : List Policy → LiftRes} {s : Po
     | err => simp [collectLift] at h
     | errThreshold => simp [collectLift] at h
 
+theorem collectLift_all_ok (ps : List Policy) (k : List Policy → LiftRes) :
+    collectLift (ps.map LiftRes.ok) k = k ps := by
+  induction ps generalizing k with
+  | nil => rfl
+  | cons p ps ih => simp only [List.map_cons, collectLift]; exact ih _
+
 /-- children lifted one by one with the same truth values ⇒ same count, same length -/
 theorem lifted_children (v : Atom → Bool) :
     ∀ (subs : List CPolicy) (ps : List Policy),
-      (∀ c ∈ subs, ∀ s, lift c = .ok s → holdsA v s = holdsC v c) →
-      subs.map lift = ps.map LiftRes.ok →
+      (∀ c ∈ subs, ∀ s, liftUnchecked c = .ok s → holdsA v s = holdsC v c) →
+      subs.map liftUnchecked = ps.map LiftRes.ok →
       ps.countP (holdsA v) = subs.countP (holdsC v) ∧ ps.length = subs.length := by
   intro subs
   induction subs with
@@ -49,136 +57,120 @@ theorem lifted_children (v : Atom → Bool) :
       obtain ⟨i1, i2⟩ := ih ps (fun c' hc' => hc c' (by simp [hc'])) h2
       simp [List.countP_cons, this, i1, i2]
 
-theorem lift_holdsA (v : Atom → Bool) :
-    ∀ c, ∀ s, lift c = .ok s → holdsA v s = holdsC v c := by
+theorem liftUnchecked_holdsA (v : Atom → Bool) :
+    ∀ c, ∀ s, liftUnchecked c = .ok s → holdsA v s = holdsC v c := by
   intro c
   induction c using CPolicy.induct' with
-  | unsat => intro s h; simp [lift] at h; subst h; rfl
-  | trivial => intro s h; simp [lift] at h; subst h; rfl
-  | atom a => intro s h; simp [lift] at h; subst h; rfl
+  | unsat => intro s h; simp [liftUnchecked] at h; subst h; rfl
+  | trivial => intro s h; simp [liftUnchecked] at h; subst h; rfl
+  | atom a => intro s h; simp [liftUnchecked] at h; subst h; rfl
   | and subs ih =>
     intro s h
-    rw [lift] at h
-    split at h
-    · simp at h
-    · obtain ⟨ps, hps, hk⟩ := collectLift_ok h
-      rw [liftList_eq] at hps
-      obtain ⟨hc, hl⟩ := lifted_children v subs ps ih hps
-      split at hk
-      · simp only [LiftRes.ok.injEq] at hk
-        subst hk
-        rw [normalized_holdsA, holdsA_thresh, holdsC, countC_eq, hc, hl]
-      · simp at hk
+    rw [liftUnchecked] at h
+    obtain ⟨ps, hps, hk⟩ := collectLift_ok h
+    rw [liftUncheckedList_eq] at hps
+    obtain ⟨hc, hl⟩ := lifted_children v subs ps ih hps
+    split at hk
+    · simp only [LiftRes.ok.injEq] at hk
+      subst hk
+      rw [normalized_holdsA, holdsA_thresh, holdsC, countC_eq, hc, hl]
+    · simp at hk
   | or subs ih =>
     intro s h
-    rw [lift] at h
-    split at h
-    · simp at h
-    · obtain ⟨ps, hps, hk⟩ := collectLift_ok h
-      rw [liftList_eq] at hps
-      obtain ⟨hc, hl⟩ := lifted_children v subs ps ih hps
-      split at hk
-      · simp only [LiftRes.ok.injEq] at hk
-        subst hk
-        rw [normalized_holdsA, holdsA_thresh, holdsC, countC_eq, hc]
-      · simp at hk
-  | thresh k subs ih =>
-    intro s h
-    rw [lift] at h
-    split at h
-    · simp at h
-    · obtain ⟨ps, hps, hk⟩ := collectLift_ok h
-      rw [liftList_eq] at hps
-      obtain ⟨hc, hl⟩ := lifted_children v subs ps ih hps
-      simp only [LiftRes.ok.injEq] at hk
+    rw [liftUnchecked] at h
+    obtain ⟨ps, hps, hk⟩ := collectLift_ok h
+    rw [liftUncheckedList_eq] at hps
+    obtain ⟨hc, hl⟩ := lifted_children v subs ps ih hps
+    split at hk
+    · simp only [LiftRes.ok.injEq] at hk
       subst hk
       rw [normalized_holdsA, holdsA_thresh, holdsC, countC_eq, hc]
+    · simp at hk
+  | thresh k subs ih =>
+    intro s h
+    rw [liftUnchecked] at h
+    obtain ⟨ps, hps, hk⟩ := collectLift_ok h
+    rw [liftUncheckedList_eq] at hps
+    obtain ⟨hc, hl⟩ := lifted_children v subs ps ih hps
+    simp only [LiftRes.ok.injEq] at hk
+    subst hk
+    rw [normalized_holdsA, holdsA_thresh, holdsC, countC_eq, hc]
 
-/-! ## `lift` refuses exactly when `check_timelocks` does (no panic on well-formed input) -/
+theorem lift_ok_iff (c : CPolicy) (s : Policy) :
+    lift c = .ok s ↔ checkTimelocks c = true ∧ liftUnchecked c = .ok s := by
+  unfold lift
+  cases checkTimelocks c <;> simp
 
-theorem collectLift_all_ok (ps : List Policy) (k : List Policy → LiftRes) :
-    collectLift (ps.map LiftRes.ok) k = k ps := by
-  induction ps generalizing k with
-  | nil => rfl
-  | cons p ps ih => simp only [List.map_cons, collectLift]; exact ih _
+theorem lift_holdsA (v : Atom → Bool) (c : CPolicy) (s : Policy) (h : lift c = .ok s) :
+    holdsA v s = holdsC v c :=
+  liftUnchecked_holdsA v c s ((lift_ok_iff c s).mp h).2
 
-theorem exists_ok_list : ∀ (subs : List CPolicy), (∀ c ∈ subs, ∃ s, lift c = .ok s) →
-    ∃ ps : List Policy, subs.map lift = ps.map LiftRes.ok ∧ ps.length = subs.length
+theorem liftUnchecked_NF : ∀ c s, liftUnchecked c = .ok s → NF s = true := by
+  intro c s h
+  cases c with
+  | unsat => simp [liftUnchecked] at h; subst h; rfl
+  | trivial => simp [liftUnchecked] at h; subst h; rfl
+  | atom a => simp [liftUnchecked] at h; subst h; rfl
+  | and subs =>
+    rw [liftUnchecked] at h
+    obtain ⟨ps, _, hk⟩ := collectLift_ok h
+    split at hk
+    · simp only [LiftRes.ok.injEq] at hk; subst hk; exact normalized_NF _
+    · simp at hk
+  | or subs =>
+    rw [liftUnchecked] at h
+    obtain ⟨ps, _, hk⟩ := collectLift_ok h
+    split at hk
+    · simp only [LiftRes.ok.injEq] at hk; subst hk; exact normalized_NF _
+    · simp at hk
+  | thresh k subs =>
+    rw [liftUnchecked] at h
+    obtain ⟨ps, _, hk⟩ := collectLift_ok h
+    simp only [LiftRes.ok.injEq] at hk; subst hk; exact normalized_NF _
+
+/-! ## `lift_unchecked` succeeds on every policy without an empty `and` / `or` -/
+
+theorem exists_ok_list : ∀ (subs : List CPolicy), (∀ c ∈ subs, ∃ s, liftUnchecked c = .ok s) →
+    ∃ ps : List Policy, subs.map liftUnchecked = ps.map LiftRes.ok ∧ ps.length = subs.length
   | [], _ => ⟨[], rfl, rfl⟩
   | c :: cs, h => by
     obtain ⟨s, hs⟩ := h c (by simp)
     obtain ⟨ps, hps, hl⟩ := exists_ok_list cs (fun c' hc' => h c' (by simp [hc']))
     exact ⟨s :: ps, by simp [hs, hps], by simp [hl]⟩
 
-theorem check_children (k : Nat) (subs : List CPolicy)
-    (h : (TimelockInfo.combineThreshold k (subs.map timelockInfo)).containsCombination = false) :
-    ∀ c ∈ subs, checkTimelocks c = true := by
-  intro c hc
-  cases hcc : (timelockInfo c).containsCombination
-  · simp [checkTimelocks, hcc]
-  · have := (combineThreshold_comb k (subs.map timelockInfo)).mpr
-      (Or.inl ⟨_, List.mem_map.mpr ⟨c, hc, rfl⟩, hcc⟩)
-    rw [h] at this; simp at this
-
-theorem lift_total : ∀ c, andOrNonEmpty c = true →
-    (checkTimelocks c = false ∧ lift c = .err) ∨ (checkTimelocks c = true ∧ ∃ s, lift c = .ok s) := by
+theorem liftUnchecked_total : ∀ c, andOrNonEmpty c = true → ∃ s, liftUnchecked c = .ok s := by
   intro c
   induction c using CPolicy.induct' with
-  | unsat => intro _; exact Or.inr ⟨rfl, _, rfl⟩
-  | trivial => intro _; exact Or.inr ⟨rfl, _, rfl⟩
-  | atom a => intro _; exact Or.inr ⟨by cases a <;> rfl, _, rfl⟩
+  | unsat => intro _; exact ⟨_, rfl⟩
+  | trivial => intro _; exact ⟨_, rfl⟩
+  | atom a => intro _; exact ⟨_, rfl⟩
   | and subs ih =>
     intro hb
     simp only [andOrNonEmpty, Bool.and_eq_true, decide_eq_true_eq, andOrNonEmpty_go_iff] at hb
-    cases hck : checkTimelocks (.and subs)
-    · left; exact ⟨rfl, by rw [lift, hck]; rfl⟩
-    · right
-      refine ⟨rfl, ?_⟩
-      have hcomb : (TimelockInfo.combineThreshold subs.length
-          (subs.map timelockInfo)).containsCombination = false := by
-        simpa [checkTimelocks, timelockInfo, timelockInfoList_eq] using hck
-      have hch := check_children _ subs hcomb
-      obtain ⟨ps, hps, hl⟩ := exists_ok_list subs (fun c hc => by
-        rcases ih c hc (hb.2 c hc) with ⟨h1, _⟩ | ⟨_, h2⟩
-        · rw [hch c hc] at h1; simp at h1
-        · exact h2)
-      rw [lift, hck, liftList_eq, hps, collectLift_all_ok]
-      have : 1 ≤ ps.length := by omega
-      simp [this]
+    obtain ⟨ps, hps, hl⟩ := exists_ok_list subs (fun c hc => ih c hc (hb.2 c hc))
+    rw [liftUnchecked, liftUncheckedList_eq, hps, collectLift_all_ok]
+    have : 1 ≤ ps.length := by omega
+    simp [this]
   | or subs ih =>
     intro hb
     simp only [andOrNonEmpty, Bool.and_eq_true, decide_eq_true_eq, andOrNonEmpty_go_iff] at hb
-    cases hck : checkTimelocks (.or subs)
-    · left; exact ⟨rfl, by rw [lift, hck]; rfl⟩
-    · right
-      refine ⟨rfl, ?_⟩
-      have hcomb : (TimelockInfo.combineThreshold 1
-          (subs.map timelockInfo)).containsCombination = false := by
-        simpa [checkTimelocks, timelockInfo, timelockInfoList_eq] using hck
-      have hch := check_children _ subs hcomb
-      obtain ⟨ps, hps, hl⟩ := exists_ok_list subs (fun c hc => by
-        rcases ih c hc (hb.2 c hc) with ⟨h1, _⟩ | ⟨_, h2⟩
-        · rw [hch c hc] at h1; simp at h1
-        · exact h2)
-      rw [lift, hck, liftList_eq, hps, collectLift_all_ok]
-      have : 1 ≤ ps.length := by omega
-      simp [this]
+    obtain ⟨ps, hps, hl⟩ := exists_ok_list subs (fun c hc => ih c hc (hb.2 c hc))
+    rw [liftUnchecked, liftUncheckedList_eq, hps, collectLift_all_ok]
+    have : 1 ≤ ps.length := by omega
+    simp [this]
   | thresh k subs ih =>
     intro hb
     simp only [andOrNonEmpty, andOrNonEmpty_go_iff] at hb
-    cases hck : checkTimelocks (.thresh k subs)
-    · left; exact ⟨rfl, by rw [lift, hck]; rfl⟩
-    · right
-      refine ⟨rfl, ?_⟩
-      have hcomb : (TimelockInfo.combineThreshold k
-          (subs.map timelockInfo)).containsCombination = false := by
-        simpa [checkTimelocks, timelockInfo, timelockInfoList_eq] using hck
-      have hch := check_children _ subs hcomb
-      obtain ⟨ps, hps, hl⟩ := exists_ok_list subs (fun c hc => by
-        rcases ih c hc (hb c hc) with ⟨h1, _⟩ | ⟨_, h2⟩
-        · rw [hch c hc] at h1; simp at h1
-        · exact h2)
-      rw [lift, hck, liftList_eq, hps, collectLift_all_ok]
-      exact ⟨_, rfl⟩
+    obtain ⟨ps, hps, hl⟩ := exists_ok_list subs (fun c hc => ih c hc (hb c hc))
+    rw [liftUnchecked, liftUncheckedList_eq, hps, collectLift_all_ok]
+    exact ⟨_, rfl⟩
+
+/-- `lift` refuses with the timelock error exactly when `check_timelocks` does -/
+theorem lift_total (c : CPolicy) (hn : andOrNonEmpty c = true) :
+    (checkTimelocks c = false ∧ lift c = .err) ∨ (checkTimelocks c = true ∧ ∃ s, lift c = .ok s) := by
+  unfold lift
+  cases checkTimelocks c
+  · left; simp
+  · right; simpa using liftUnchecked_total c hn
 
 end MsVerif.Pol
